@@ -12,7 +12,8 @@
               one undefined frame: blocking / non-blocking pulses, captures, raw captures, frame updates,
               SWAP-PHASES, fences (bare / one qubit / two qubits), delays (with / without frame names),
               RESET (bare / per qubit)
-     "mixed"  a selection of both, plus the instructions the builder refuses (WAIT, a gate)             *)
+     "mixed"  a selection of both, plus the instructions the builder refuses (WAIT, a gate)
+     "mem4" / "rf4" / "mixed4"  subsets of the above for the exhaustive length-4 runs of the thorough tier  *)
 EXTENDS BlockGraph, MemAccess, FrameMatch, Json
 CONSTANTS MaxLen, Alpha
 
@@ -91,10 +92,26 @@ MixedAlphabet ==
       Capture(FALSE, F01, Flat, Ref("a", 0)), SetPhase(F1, Addr("a")),
       Fence(<<>>), Delay(<<0>>, <<>>, Num), Reset(Some(1)), SwapPhases(F0, F01),
       WaitI, GateI }
+\* reduced alphabets for the exhaustive length-4 runs of the thorough tier
+Mem4Alphabet ==
+    { Move(Ref("a", 0), Int), Move(Ref("a", 1), MRef("b", 0)), Move(Ref("b", 0), MRef("a", 1)), Arith("ADD", Ref("a", 0), Int),
+      Exchange(Ref("a", 0), Ref("b", 0)), Load(Ref("a", 0), "b", Ref("b", 1)), NopI,
+      Capture(FALSE, F0, Flat, Ref("a", 0)), Capture(FALSE, F1, FlatA, Ref("b", 0)), SetPhase(F0, Addr("a")) }
+Rf4Alphabet ==
+    { Pulse(TRUE, F0, Flat), Pulse(FALSE, F0, Flat), Pulse(TRUE, F1, Flat), Pulse(FALSE, F01, Flat), Pulse(FALSE, FU, Flat),
+      SetPhase(F0, Num), SwapPhases(F0, F01), Fence(<<>>), Fence(<<1>>), Delay(<<0>>, <<>>, Num), Reset(None), Reset(Some(1)) }
+Mixed4Alphabet ==
+    { Move(Ref("a", 0), Int), Arith("ADD", Ref("a", 0), MRef("b", 0)), Move(Ref("b", 0), MRef("a", 0)), NopI,
+      Pulse(TRUE, F0, Flat), Pulse(FALSE, F1, Flat), Pulse(FALSE, FU, Flat), Capture(FALSE, F01, Flat, Ref("a", 0)),
+      SetPhase(F1, Addr("a")), Fence(<<>>), Reset(Some(1)) }
 Alphabet == CASE Alpha = "mem" -> MemAlphabet [] Alpha = "rf" -> RfAlphabet [] Alpha = "mixed" -> MixedAlphabet
+              [] Alpha = "mem4" -> Mem4Alphabet [] Alpha = "rf4" -> Rf4Alphabet [] Alpha = "mixed4" -> Mixed4Alphabet
 Terminators == CASE Alpha = "mem"   -> {<<>>, <<HaltI>>, <<JumpWhen(Ref("a", 0))>>, <<JumpUnless(Ref("b", 0))>>}
                  [] Alpha = "rf"    -> {<<>>, <<JumpI>>}
                  [] Alpha = "mixed" -> {<<>>, <<JumpI>>, <<JumpWhen(Ref("a", 0))>>}
+                 [] Alpha = "mem4"  -> {<<>>, <<JumpWhen(Ref("a", 0))>>}
+                 [] Alpha = "rf4"   -> {<<>>}
+                 [] Alpha = "mixed4" -> {<<>>, <<JumpWhen(Ref("a", 0))>>}
 
 \* ---- the handler: InstructionHandler::{role, is_scheduled, memory_accesses, matching_frames} ----
 RoleOf(i) ==
